@@ -604,8 +604,11 @@ class AllOf(AttrConstraint[AttributeCovT]):
         )
 
     def infer(self, context: ConstraintContext) -> AttributeCovT:
+        variables = (
+            context.attr_variables | context.range_variables | context.int_variables
+        )
         for constr in self.attr_constrs:
-            if constr.can_infer(context.attr_variables):
+            if constr.can_infer(variables):
                 return constr.infer(context)
         raise ValueError("Cannot infer attribute from constraint")
 
@@ -1235,9 +1238,9 @@ class RangeLengthConstraint(RangeConstraint[AttributeCovT]):
     def infer(
         self, context: ConstraintContext, *, length: int | None
     ) -> Sequence[AttributeCovT]:
-        if length is None:
+        if length is None and self.length.can_infer(context.int_variables):
             length = self.length.infer(context)
-        if not length:
+        if length is not None and not length:
             return ()
         return self.constraint.infer(context, length=length)
 
